@@ -162,7 +162,7 @@ def run(ctx):
                 why.append("no successful fsync after the last write of " + ",".join(ev["unsynced"][:3]))
             if why:
                 ctx.violation("C04: exit 0 although %s failed with %s (%s, workers=%d, per-thread call #%d%s): %s; injected: %s" %
-                              (sysc, err, drv, w, when, ", after short counts (%s)" % plan if plan else "", "; ".join(why), inj[:2]),
+                              (sysc, err, drv, w, when, (", after short counts (%s)" % plan if plan.startswith("cfr") else ", campaign %s" % plan) if plan else "", "; ".join(why), inj[:2]),
                               {"kind": "c04", "driver": drv, "workers": w, "syscall": sysc, "errno": err, "when": when, "plan": plan, "injected": inj,
                                "ns_verdict": nv, "ev_verdict": ev, "stderr": o["_run"]["stderr"]},
                               sig={"syscall": sysc, "driver": drv, "class": "stat" if sysc in ("newfstatat", "statx") else "other"})
